@@ -15,7 +15,7 @@ THEOREMS = {
     "SpecKitV.Lemmas.SchedNewVec": ["SchedNV.newStep_rL", "SchedNV.newStep_bin", "SchedNV.newStep_next", "SchedNV.newStep_bmin",
                                     "SchedNV.newWalk_below", "SchedNV.newWalk_stepping", "SchedNV.vecWalk_below", "SchedNV.vecWalk_stepping",
                                     "SchedNV.vecGridPoint_props", "SchedNV.searchLeft_spec"],
-    # PENDING "SpecKitV.Props.C03": ["ltfPlan_grid", "lpsd_is_ltf", "newPlan_grid", "vecPlan_grid"],
+    "SpecKitV.Props.C03": ["ltfPlan_grid", "lpsdPlan_grid", "lpsd_is_ltf", "newPlan_grid", "vecPlan_grid", "vecPlan_increasing"],
 }
 CONTRACTS = ["np.logspace/np.searchsorted as modelled (10**linspace; count of grid points below the query)"]
 ASSUMPTIONS = ["float evaluation: r*L=fs and f[j+1]=f[j]+r[j] are checked to a few ulp on the real code; exact in the real-number theorems"]
